@@ -180,14 +180,20 @@ def QueryList.toProto : QueryList → QueryPList
   | .cons q qs => .cons q.toProto qs.toProto
 end
 
+/-! `cv` stands for the one floating-point computation that the wire round trip of a query depends on:
+`NewQueryFromProto` turns `CapProto.radius_meters` into an `s1.Angle`, `s2.CapFromCenterAngle` into a chord
+angle, and `IntersectsCap.ToProto` reports `AngleToMeters(cap.Radius())`.  `cv r` is the bit pattern reported
+for a request that carried `r`.  It is a parameter of the model (all floating point is outside it); the
+theorems say what they need of it. -/
+
 mutual
 /-- `NewQueryFromProto`: no case for `empty`, `isValid`, `intersectsCells`, `mightIntersect`, an unset
 oneof, or a `typed` without its query — all of them `Can't handle query`. -/
-def QueryP.fromProto : QueryP → R Query
+def QueryP.fromProto (cv : Nat → Nat) : QueryP → R Query
   | .all => .ok .all
   | .keyed k => .ok (.keyed k)
   | .tagged k v => .ok (.tagged k (.str v))
-  | .cap c r => .ok (.cap c r)
+  | .cap c r => .ok (.cap c (cv r))
   | .feature id =>
     match id.fromProto with
     | some f => .ok (.feature f)
@@ -197,24 +203,24 @@ def QueryP.fromProto : QueryP → R Query
   | .multipolygon m => .ok (.multipolygon m)
   | .typed e q =>
     -- the child is converted first; `NewFeatureTypeFromProto` (panic on an unknown number) after it
-    match q.fromProto with
+    match q.fromProto cv with
     | .ok child =>
       match ftypeFromProto e with
       | some t => .ok (.typed t child)
       | none => .panic
     | .err => .err
     | .panic => .panic
-  | .inter qs => (qs.fromProto).bind fun l => .ok (.inter l)
-  | .union qs => (qs.fromProto).bind fun l => .ok (.union l)
+  | .inter qs => (qs.fromProto cv).bind fun l => .ok (.inter l)
+  | .union qs => (qs.fromProto cv).bind fun l => .ok (.union l)
   | .typedNoQuery _ => .err
   | .empty => .err
   | .isValid => .err
   | .cells _ => .err
   | .might _ => .err
   | .unset => .err
-def QueryPList.fromProto : QueryPList → R QueryList
+def QueryPList.fromProto (cv : Nat → Nat) : QueryPList → R QueryList
   | .nil => .ok .nil
-  | .cons q qs => (q.fromProto).bind fun q' => (qs.fromProto).bind fun qs' => .ok (.cons q' qs')
+  | .cons q qs => (q.fromProto cv).bind fun q' => (qs.fromProto cv).bind fun qs' => .ok (.cons q' qs')
 end
 
 /-! ## expressions -/
@@ -366,7 +372,7 @@ def LitP.elemFromProto (l : LitP) (r : R Any) : R Any :=
 
 mutual
 /-- the literal switch of `expressionFromProto` -/
-def LitP.fromProto : LitP → R Any
+def LitP.fromProto (cv : Nat → Nat) : LitP → R Any
   | .intV i => .ok (.int i)
   | .floatV b => .ok (.float b)
   | .boolV b => .ok (.bool b)
@@ -379,7 +385,7 @@ def LitP.fromProto : LitP → R Any
   | .pointV p => .ok (.point p)
   | .pathV ps => .ok (.path ps)
   | .areaV m => .ok (.area m)
-  | .queryV q => (q.fromProto).bind fun q' => .ok (.query q')
+  | .queryV q => (q.fromProto cv).bind fun q' => .ok (.query q')
   | .nilV => .ok .absent            -- `NilExpressionFromProto` returns `Expression{}`
   | .geojsonV _ => .panic           -- `panic("Unimplemented")`
   | .routeV r =>
@@ -388,34 +394,34 @@ def LitP.fromProto : LitP → R Any
     | none => .panic
   | .collV pairs sk sv =>
     if sk ≠ 0 ∨ sv ≠ 0 then .err      -- `len(keys) != len(values)`
-    else (pairs.fromProto).bind fun items => .ok (.coll items)
+    else (pairs.fromProto cv).bind fun items => .ok (.coll items)
   | .pairV => .err
   | .featureV => .err
   | .appliedChangeV => .err
   | .unset => .err
 /-- the loop of `CollectionExpressionFromProto`: key i, then value i -/
-def LitPairList.fromProto : LitPairList → R PairList
+def LitPairList.fromProto (cv : Nat → Nat) : LitPairList → R PairList
   | .nil => .ok .nil
   | .cons k v rest =>
-    (k.elemFromProto k.fromProto).bind fun k' => (v.elemFromProto v.fromProto).bind fun v' =>
-      (rest.fromProto).bind fun items => .ok (.cons k' v' items)
+    (k.elemFromProto (k.fromProto cv)).bind fun k' => (v.elemFromProto (v.fromProto cv)).bind fun v' =>
+      (rest.fromProto cv).bind fun items => .ok (.cons k' v' items)
 end
 
 mutual
 /-- `expressionFromProto` -/
-def KindP.fromProto : KindP → R Any
+def KindP.fromProto (cv : Nat → Nat) : KindP → R Any
   | .symbol s => .ok (.symbol s)
-  | .literal l => l.fromProto
+  | .literal l => l.fromProto cv
   | .call f args p =>
-    (f.fromProto).bind fun f' => (args.fromProto).bind fun as => .ok (.call f' as p)
-  | .lambda params body => (body.fromProto).bind fun b => .ok (.lambda params b)
+    (f.fromProto cv).bind fun f' => (args.fromProto cv).bind fun as => .ok (.call f' as p)
+  | .lambda params body => (body.fromProto cv).bind fun b => .ok (.lambda params b)
   | .unset => .err
 /-- `ExpressionFromProto` -/
-def NodeP.fromProto : NodeP → R Expr
-  | .mk k name b e => (k.fromProto).bind fun a => .ok (.mk a name b e)
-def NodePList.fromProto : NodePList → R ExprList
+def NodeP.fromProto (cv : Nat → Nat) : NodeP → R Expr
+  | .mk k name b e => (k.fromProto cv).bind fun a => .ok (.mk a name b e)
+def NodePList.fromProto (cv : Nat → Nat) : NodePList → R ExprList
   | .nil => .ok .nil
-  | .cons n ns => (n.fromProto).bind fun e => (ns.fromProto).bind fun es => .ok (.cons e es)
+  | .cons n ns => (n.fromProto cv).bind fun e => (ns.fromProto cv).bind fun es => .ok (.cons e es)
 end
 
 /-! ## the round-trip domain (executable; used literally by the theorems and by the driver) -/
@@ -483,6 +489,69 @@ def ExprList.supported : ExprList → Bool
 def PairList.supported : PairList → Bool
   | .nil => true
   | .cons k v rest => Any.isElem k && k.supported && Any.isElem v && v.supported && rest.supported
+end
+
+/-! ## cap radii that the float conversion `cv` reproduces -/
+
+mutual
+def Query.capStable (cv : Nat → Nat) : Query → Bool
+  | .cap _ r => cv r == r
+  | .typed _ q => q.capStable cv
+  | .inter qs => qs.capStable cv
+  | .union qs => qs.capStable cv
+  | _ => true
+def QueryList.capStable (cv : Nat → Nat) : QueryList → Bool
+  | .nil => true
+  | .cons q qs => q.capStable cv && qs.capStable cv
+end
+
+mutual
+def Any.capStable (cv : Nat → Nat) : Any → Bool
+  | .query q => q.capStable cv
+  | .coll items => items.capStable cv
+  | .call f args _ => f.capStable cv && args.capStable cv
+  | .lambda _ body => body.capStable cv
+  | _ => true
+def Expr.capStable (cv : Nat → Nat) : Expr → Bool
+  | .mk a _ _ _ => a.capStable cv
+def ExprList.capStable (cv : Nat → Nat) : ExprList → Bool
+  | .nil => true
+  | .cons e es => e.capStable cv && es.capStable cv
+def PairList.capStable (cv : Nat → Nat) : PairList → Bool
+  | .nil => true
+  | .cons k v rest => k.capStable cv && v.capStable cv && rest.capStable cv
+end
+
+/-! ## what a client can put on the wire so that the reply is stable (executable) -/
+
+def LitP.notQuery : LitP → Bool
+  | .queryV _ => false
+  | _ => true
+
+mutual
+/-- no nil literal, and no query inside a collection literal -/
+def LitP.wire : LitP → Bool
+  | .nilV => false
+  | .collV pairs _ _ => pairs.wire
+  | _ => true
+def LitPairList.wire : LitPairList → Bool
+  | .nil => true
+  | .cons k v rest => LitP.notQuery k && k.wire && LitP.notQuery v && v.wire && rest.wire
+end
+
+mutual
+def KindP.wire : KindP → Bool
+  | .literal l => l.wire
+  | .call f args _ => f.wire && args.wire
+  | .lambda _ body => body.wire
+  | .symbol _ => true
+  | .unset => true
+/-- `begin` / `end` are `int32` fields -/
+def NodeP.wire : NodeP → Bool
+  | .mk k _ b e => k.wire && inInt32 b && inInt32 e
+def NodePList.wire : NodePList → Bool
+  | .nil => true
+  | .cons n ns => n.wire && ns.wire
 end
 
 end B6.Model.WireExpr
